@@ -259,6 +259,7 @@ CaseResult run_seg(const RunCtx &ctx, TapeReader &t, unsigned size_hint) {
     if (layer == 0) o.size_hint = std::min(size_hint, 70u), o.allow_threads = false, o.max_n = 6000;
     o.xkeys = ctx.x("xkeys");
     o.xthreads = ctx.x("xthreads");
+    o.smooth_curves = layer == 1;
     std::vector<K> keys = gen_keys<K>(t, o, meta);
     const size_t n = keys.size();
 
